@@ -268,13 +268,18 @@ def main(tier, replay=None, rep=None, prop=PROP, cases=None):
                             "exc": ev["exc"], "verdict": [kind, detail]})
     import shutil
 
+    n_disp = 0
+    if not collect and not replay:
+        import tacticdrv
+
+        n_disp, _ = tacticdrv.conformance(rep, rd, PROP, cases[: 80 if tier == "quick" else 800])
     shutil.rmtree(rd, ignore_errors=True)
     if collect:
         return {"evaluations": n_ev, "nontrivial": nontrivial, "traces": len(traces), "verdict_counts": counts}
     return rep.finish({
         "evaluations": n_ev,
         "distinct_nontrivial": len(nontrivial),
-        "traces_validated_against_impl": len(traces),
+        "traces_validated_against_impl": len(traces) + n_disp,
         "rule": "one trace per generated (list, context, eliminated set), one event per (refine|relax, tactics_order, simplify); "
                 "non-trivial = the call returned and at least one tactic >= 1 produced a row; distinct by digest of the call",
         "verdict_counts": counts,
